@@ -215,6 +215,9 @@ func runC04(c *Ctx) error {
 			c.oracleFail("read loop did not return after the handlers were released ["+tag+"]", "read-hang", map[string]any{"tag": tag})
 		}
 		_ = tap.Close()
+		for i := 0; i < 250 && (running.Load() > 0 || runtime.NumGoroutine() > g0+1); i++ { // let the handler goroutines finish
+			time.Sleep(20 * time.Millisecond)
+		}
 		c.count(tag, true, "kind=parallel-flood")
 	}
 	return runC04Handshake(c)
@@ -390,23 +393,32 @@ func runC04Handshake(c *Ctx) error {
 					_ = err
 					var pan any
 					var ms0, ms1 runtime.MemStats
-					runtime.ReadMemStats(&ms0)
-					ok := runWithTimeout(10*time.Second, func() {
-						defer func() { pan = recover() }()
-						tap := newMemConn()
-						if server {
-							conn, err = serverConnWith(hostileUp, tap, map[string][]string{"Sec-WebSocket-Extensions": {ext}})
-						} else {
-							conn, _, err = clientConn(&gws.ClientOption{HandshakeTimeout: 2 * time.Second, PermessageDeflate: pd}, &recHandler{}, tap, ext, nil)
+					ok := true
+					// the allocation counter is process-wide: a reading above the budget is repeated (an over-allocation caused by
+					// the extension parameters repeats every time, what other goroutines of the harness allocate does not)
+					for attempt := 0; attempt < 3; attempt++ {
+						runtime.ReadMemStats(&ms0)
+						ok = runWithTimeout(10*time.Second, func() {
+							defer func() { pan = recover() }()
+							tap := newMemConn()
+							if server {
+								conn, err = serverConnWith(hostileUp, tap, map[string][]string{"Sec-WebSocket-Extensions": {ext}})
+							} else {
+								conn, _, err = clientConn(&gws.ClientOption{HandshakeTimeout: 2 * time.Second, PermessageDeflate: pd}, &recHandler{}, tap, ext, nil)
+							}
+							if conn != nil { // use the connection once: windows and (de)compressors are sized from the negotiated values
+								tap.feed(encodeFrame(frameSpec{Fin: true, Rsv1: true, Opcode: 1, Masked: server, Key: [4]byte{1, 2, 3, 4}, Payload: rfc7692Deflate([]byte("hello hello hello"), nil, 6), DeclLen: -1}))
+								tap.setEOF()
+								_ = conn.WriteMessage(gws.OpcodeText, bytes.Repeat([]byte("abc"), 400))
+								conn.ReadLoop()
+							}
+						})
+						runtime.ReadMemStats(&ms1)
+						if !ok || pan != nil || ms1.TotalAlloc-ms0.TotalAlloc <= 8<<20 {
+							break
 						}
-						if conn != nil { // use the connection once: windows and (de)compressors are sized from the negotiated values
-							tap.feed(encodeFrame(frameSpec{Fin: true, Rsv1: true, Opcode: 1, Masked: server, Key: [4]byte{1, 2, 3, 4}, Payload: rfc7692Deflate([]byte("hello hello hello"), nil, 6), DeclLen: -1}))
-							tap.setEOF()
-							_ = conn.WriteMessage(gws.OpcodeText, bytes.Repeat([]byte("abc"), 400))
-							conn.ReadLoop()
-						}
-					})
-					runtime.ReadMemStats(&ms1)
+						time.Sleep(50 * time.Millisecond)
+					}
 					replay := map[string]any{"role": map[bool]string{true: "server", false: "client"}[server], "extensions": ext}
 					tag := fmt.Sprintf("server=%v ext=%q", server, ext)
 					switch {
